@@ -22,7 +22,8 @@ class Sched:
         self.m = m; self.T = T; self.K = K; self.stop = set(stop); self.posmap = posmap
         self.pos = {}     # key -> var
         self.keys = {t: [] for t in range(1, T + 1)}
-        self.c = {t: [0] + [var('cs_%d_%d' % (t, r), PW) for r in range(1, K + 1)] for t in range(1, T + 1)}
+        fx = getattr(m, 'fixed_sched', None) or {}
+        self.c = {t: [0] + [fx.get('cs_%d_%d' % (t, r), var('cs_%d_%d' % (t, r), PW)) for r in range(1, K + 1)] for t in range(1, T + 1)}
         self.n = {t: var('n_%d' % t, PW) for t in range(1, T + 1)}
         self.fixed_c = None
 
@@ -44,7 +45,16 @@ class Sched:
         def win(key):
             p = self.posvar(t, key)
             return And(Cmp('ule', lo, p, PW), Cmp('ult', p, hi, PW))
+        if not isinstance(lo, Term) and not isinstance(hi, Term) and lo >= hi:
+            return None     # empty window with a concrete schedule: nothing to do in this pass
         return win
+
+    def before(self, t, r):
+        lo = self.c[t][r - 1]
+
+        def bf(key):
+            return Cmp('ult', self.posvar(t, key), lo, PW)
+        return bf
 
     def finish(self):
         """number the positions, constrain the switch points"""
@@ -63,14 +73,10 @@ class Sched:
             term.VAR_DEFS['n_%d' % t] = n
             c = self.c[t]
             for r in range(1, self.K + 1):
-                m.assumptions.insert(0, Cmp('ule', c[r - 1], c[r], PW))
-            m.assumptions.insert(0, Cmp('ule', c[self.K], n, PW))
+                m.gassumptions.append(Cmp('ule', c[r - 1], c[r], PW))
+            m.gassumptions.append(Cmp('ule', c[self.K], n, PW))
             if t not in self.stop:
-                m.assumptions.insert(0, Cmp('eq', c[self.K], n, PW))
-        # obligations created earlier refer to assumption-prefix lengths: shift them
-        shift = sum((self.K + 1 + (0 if t in self.stop else 1)) for t in range(1, self.T + 1))
-        for ob in m.obligations: ob.nassume += shift
-        self.shift = shift
+                m.gassumptions.append(Cmp('eq', c[self.K], n, PW))
 
 
 def run_threads(m, sc, log=None):
@@ -86,10 +92,12 @@ def run_threads(m, sc, log=None):
             th.reset_pass()
             m.pass_no = (r - 1) * T + (t - 1) + 1
             m.win = sch.window(t, r)
+            if m.win is None: continue
+            m.before = sch.before(t, r)
             m.run_entry('vp_thread%d' % t)
             m.thread_exit()
             if log: log('    pass r%d t%d: %d terms, %d obligations, %.1fs' % (r, t, term.nterms(), len(m.obligations), time.time() - t0))
-    m.win = None
+    m.win = None; m.before = None
     m.hard_loop_cap = cap0
     m.cur = m.threads[0]
     m.pass_no = K * T + 1
@@ -105,19 +113,17 @@ def optime(m, op, begin):
 
 
 def replay(sc, model, violation):
-    """concrete re-execution: inputs and switch points fixed to the model's values; the violation must show up
-    as a definitely-true obligation of the same kind/site."""
+    """concrete re-execution of the IR: inputs and every context-switch point are fixed to the model's values, so the
+    machine runs as a plain interpreter (all guards fold to constants); the violation must show up as a definitely
+    true obligation of the same kind."""
     from . import scenario as S
     fixed = {int(k[3:]): v for k, v in model.items() if k.startswith('nd_') and k[3:].isdigit()}
-    m, mod, tm = S.execute(sc, fixed=fixed)
-    vals = dict(model)
-    cache = {}
-    hits = []
-    for ob in m.obligations:
-        if (ob.kind, ob.where) == (violation['kind'], violation['where']) or ob.kind == violation['kind']:
-            ok = all(evaluate(a, vals, cache) is True for a in m.assumptions[:ob.nassume])
-            if ok and evaluate(ob.cond, vals, cache) is True:
-                hits.append(ob.where)
     sched = {k: v for k, v in model.items() if k.startswith('cs_')}
-    return {'reproduced': bool(hits), 'how': 'concrete re-execution of the IR under the model schedule %s reaches the violation' % sched if hits else 'not reproduced',
-            'output': '; '.join(hits[:3])}
+    m, mod, tm = S.execute(sc, fixed=fixed, fixed_sched=sched)
+    hits = [ob.where for ob in m.obligations if ob.cond is True and ob.kind == violation['kind']]
+    same = [w for w in hits if w == violation['where']]
+    symbolic_left = sum(1 for ob in m.obligations if ob.cond is not True)
+    ok = bool(same or hits)
+    return {'reproduced': ok,
+            'how': ('concrete re-execution of the IR under schedule %s reaches the violation' % sched) if ok else 'not reproduced by concrete re-execution',
+            'output': '; '.join((same or hits)[:3]), 'residual_symbolic_obligations': symbolic_left}
